@@ -96,11 +96,13 @@ def run_unit(unit, variant, scratch, rlimit=None, seed=None, extra_tag=''):
     r.path = os.path.join(scratch, base + '.rs')
     with open(r.path, 'w') as f:
         f.write('\n'.join(r.built.lines) + '\n')
-    cmd = [VERUS, r.path, '--output-json', '--time', '--crate-name', base]
+    cmd = [VERUS, r.path, '--output-json', '--time', '--triggers-mode', 'silent', '--crate-name', base]
     if rlimit:
         cmd += ['--rlimit', str(rlimit)]
     elif unit.get('rlimit'):
         cmd += ['--rlimit', str(unit['rlimit'])]
+    for o in unit.get('smt_options', ['smt.arith.nl=true']):
+        cmd += ['--smt-option', o]
     if seed:
         cmd += ['--smt-option', 'smt.random_seed=%d' % seed, '--smt-option', 'sat.random_seed=%d' % seed]
     cmd += ['--', '--error-format=json']
